@@ -4,7 +4,7 @@
 For every mutant of the package source that still compiles: run the repository's test-suite on a scratch copy; for the
 survivors (suite still green) run all twenty checks and record which of them report a violation.  Survivors that no check
 reports are written to the output for manual triage (many are equivalent mutants, e.g. a deleted log line).
-usage: mutation_sweep.py <out.json> [module-substring ...]
+usage: [MUT_STRINGS=1] [MUT_BASE=rf102] mutation_sweep.py <out.json> [module-substring ...]
 """
 import ast, concurrent.futures as cf, copy, json, os, shutil, subprocess, sys, tempfile
 sys.path.insert(0, os.path.dirname(os.path.dirname(os.path.abspath(__file__))))
@@ -204,6 +204,10 @@ def main():
     shutil.copytree(os.path.join(REPO, "src"), os.path.join(snap, "src"), ignore=shutil.ignore_patterns("__pycache__", "*.egg-info"))
     shutil.copytree(os.path.join(REPO, "tests"), os.path.join(snap, "tests"), ignore=shutil.ignore_patterns("__pycache__"))
     REPO = snap
+    if os.environ.get("MUT_BASE"):
+        # mutate a kept behaviour-preserving refactoring instead of the pinned tree (do the checks stay as strong on it?)
+        patch = os.path.join(os.path.dirname(os.path.dirname(os.path.abspath(__file__))), "preserving", os.environ["MUT_BASE"], "patch.diff")
+        subprocess.run(["git", "apply", patch], cwd=snap, check=True)
     jobs = []
     for rel in TARGETS:
         if sel and not any(s in rel for s in sel):
